@@ -29,6 +29,7 @@ Definition sender_of (m : msg) : option Z :=
   | MRemoveUni a _ _ _ _ _ => Some a
   | MSend a _ _ _ => Some a
   | MBlock _ => None
+  | MUpdateParams a _ => Some a
   end.
 
 Definition sender_ok (m : msg) : Prop :=
@@ -115,6 +116,10 @@ Proof.
     eapply Inv_same; eassumption.
   - destruct (exec_send_spec _ _ _ _ _ _ _ E) as (_ & _ & _ & M & R). eapply Inv_same; eassumption.
   - inversion E; subst. destruct I as [I1 I2 I3 I4 I5 I6 I7 I8]. constructor; auto.
+  - destruct (exec_update_params_spec _ _ _ _ _ E) as (_ & _ & Hv & HL & _ & (R1 & R2) & _ & Hp).
+    apply params_valid_range in Hv. destruct I as [I1 I2 I3 I4 I5 I6 I7 I8].
+    constructor; try rewrite Hp; try rewrite R1; try rewrite R2; auto; try lia.
+    intros a d. unfold nn in I1. rewrite HL. apply I1.
 Qed.
 
 Lemma Inv_run ms : forall s, Inv s -> Inv (run s ms).
@@ -533,7 +538,7 @@ Proof.
   unfold step in *. destruct (exec s m) as [[s' r]|o] eqn:E; [|apply value_le_refl].
   destruct m as [buy sender rcpt din ain dout aout deadline | sender dtok max_tok exact min_liq deadline
                 | sender dlpt w min_std min_tok deadline | sender cp0 dtok exact min_liq deadline
-                | sender cp0 dtok min_tok w deadline | from to d amt | dt];
+                | sender cp0 dtok min_tok w deadline | from to d amt | dt | auth q];
     unfold sender_ok in Hs; simpl in Hs, E.
   - destruct (exec_swap_spec _ _ _ _ _ _ _ _ _ _ _ E) as (_ & _ & _ & Hain & Haout & Hdd & sold & bought & SE & B).
     assert (H0 : 0 <= (if buy then bought else sold)) by (destruct buy; lia).
@@ -546,6 +551,9 @@ Proof.
   - eapply remove_uni_value; eassumption.
   - eapply send_value; eassumption.
   - inversion E; subst. unfold value_le, reserve_std, reserve_tok, liquidity, supply. simpl. lia.
+  - (* the parameters change, no coin moves: the value is what it was, whatever the new fee *)
+    destruct (exec_update_params_spec _ _ _ _ _ E) as (_ & _ & _ & HLed & HSup & _).
+    unfold value_le, reserve_std, reserve_tok, liquidity, supply. rewrite HLed, HSup. lia.
 Qed.
 
 (** ** whole histories *)
@@ -603,7 +611,7 @@ Proof.
   unfold step in *. destruct (exec s m) as [[s' r]|o] eqn:E; [|lia].
   destruct m as [buy sender rcpt din ain dout aout deadline | sender dtok max_tok exact min_liq deadline
                 | sender dlpt w min_std min_tok deadline | sender cp0 dtok exact min_liq deadline
-                | sender cp0 dtok min_tok w deadline | from to d amt | dt]; simpl in E.
+                | sender cp0 dtok min_tok w deadline | from to d amt | dt | auth q]; simpl in E.
   - exfalso. destruct (swap_balance_sheet_lemma _ _ _ _ _ _ _ _ _ _ _ E) as (_ & _ & _ & _ & HS & _).
     unfold liquidity in *. rewrite HS in HL'. lia.
   - destruct (exec_add_spec _ _ _ _ _ _ _ _ _ E) as (_ & _ & Hex & _ & _ & mint & _ & Hm & AE).
@@ -637,6 +645,8 @@ Proof.
   - exfalso. destruct (exec_send_spec _ _ _ _ _ _ _ E) as (_ & _ & _ & M & _).
     destruct M as (_ & MS & _). pose proof (MS (lpt n)) as EL. unfold zero1, liquidity in *. lia.
   - exfalso. inversion E; subst. unfold liquidity, supply in *. simpl in HL'. unfold supply in HL. lia.
+  - exfalso. destruct (exec_update_params_spec _ _ _ _ _ E) as (_ & _ & _ & _ & HS & _).
+    unfold liquidity, supply in *. rewrite HS in HL'. lia.
 Qed.
 
 (** an emptied pool that still holds coins (somebody sent coins to its address) cannot restart:
